@@ -1,6 +1,6 @@
 """C38 cqlengine routing keys equal the partition key Cassandra hashes.
 
-Engine N.  Two layers.
+Engine N.  Three layers.
 
 Direct models: generated with 1-3 partition-key columns over every key-capable cqlengine column
 class (plus a clustering column, a static column and a data column of *other* types); every
@@ -18,6 +18,13 @@ children).  cqlengine shares the column objects of a base with all subclasses, s
 every ordered pair of model shapes and the whole shape list in rotated orders; the same statements
 are run on *every* model of the family after the last class has been defined, against the
 partition key derived independently from the documented inheritance rule.
+
+Value histories: statements executed one after the other on one model (no model state is reset in
+between) with key values that are related in the ways that matter for anything kept between two
+statements: equal and hash-equal in python but another partition for Cassandra (decimal 1.0 / 1.00 / 1,
+0.0 / -0.0), different in python but the same partition (1 / True / 1.0 in an int column, uuid / its
+text, naive / aware datetime ...), the same value again, unrelated values.  Every ordered pair of the
+per-class value table on single-key and composite models; every statement of every step is judged.
 """
 import datetime
 import decimal
@@ -29,7 +36,7 @@ from vt.core import Part, HarnessError
 META = {
     'level': 'exploration',
     'engine': 'N',
-    'technique': 'bounded-exhaustive enumeration of generated models and model-definition histories x key values x statement kinds vs independent key encoding',
+    'technique': 'bounded-exhaustive enumeration of generated models, model-definition histories and key-value statement histories x key values x statement kinds vs independent key encoding',
     'text': 'For every model with 1, 2 or 3 partition-key columns drawn from the 18 key-capable cqlengine column '
             'classes (all singles and ordered pairs; triples over a reduced class list in quick, all classes in thorough), '
             'boundary key values per class, and each routed statement kind (create/INSERT, instance update/delete, '
@@ -43,13 +50,25 @@ META = {
             'concrete parent model; an abstract base whose primary key is promoted; polymorphic children) are defined in families that '
             'share the base classes, for every ordered pair of shapes and for the whole shape list in rotated orders forwards and '
             'backwards, under 2 (quick) / 21 (thorough) assignments of column classes to the inherited columns; every concrete model '
-            'of a family, not only the last one, is exercised after the whole family has been defined.',
+            'of a family, not only the last one, is exercised after the whole family has been defined.  Statement histories on one '
+            'model: for each of the 18 classes a table of 2-12 key values containing values that are == and hash-equal in python but '
+            'encode differently (decimal 1.0 / 1.00 / 1, 1E+1 / 10, 0 / 0.0, -1.50 / -1.5; float and double 0.0 / -0.0), values that '
+            'differ in python but encode equally (0 / False, 1 / True / 1.0 in the integer, float and decimal classes; uuid / lower and '
+            'upper case text / a second equal object; naive, UTC-aware and +02:00-aware datetime of one instant; date / midnight datetime; '
+            'date / cassandra.util.Date / datetime for a date column; time / cassandra.util.Time; bytes / bytearray; two spellings of an '
+            'IPv6 address; 0.1 / float32(0.1) for float) and unrelated values; on a fresh single-key model every ordered pair of table '
+            'rows (a row with itself included) is run as two steps, each step executing all statement kinds, plus the whole table forwards '
+            'and backwards (thorough: every ordered triple); on composite models (class, Integer), (Integer, class), (Integer, class, Text) '
+            'every ordered pair of rows for the class component with unchanged partner components, and every row followed by the same row '
+            'with one partner component changed (thorough: every ordered pair under every partner change); every statement of every step '
+            'must carry the encoding of the key it fixes itself.',
     'note': 'The session is a fake that records execute() calls; value encodings of the reference are written from the '
             'protocol specification (vt/spec/minicql.py, self-tested on the vectors of tests/unit/test_marshalling.py). '
             'Batches are sent as plain strings by cqlengine and carry no routing key; they are outside the statement. '
             'The partition key expected for an inheriting model is derived from the documented rule (columns of the bases in base '
             'order, then own columns; an overriding column keeps the inherited place) and cross-checked against the CREATE TABLE text '
-            'cqlengine generates for the model when it is defined.',
+            'cqlengine generates for the model when it is defined.  In the value histories the value a column holds for a given python '
+            'input (1 for True in an int column, Decimal("1.0") for the float 1.0 in a decimal column ...) is written down by hand in the table.',
     'design_ref': 'C38',
 }
 
@@ -149,14 +168,24 @@ def direct_fp(why, label, composite, exc=None):
     return 'C38/%s/%s/%s' % (why, label, 'composite' if composite else 'single')
 
 
-def exercise(part, M, keys, values, case, compute=True, fp=direct_fp, mark=None):
+def where_of(case):
+    for k in ('family', 'history'):
+        if k in case:
+            return ' (%s)' % case[k]['where']
+    return ''
+
+
+def exercise(part, M, keys, values, case, compute=True, fp=direct_fp, mark=None, ref_values=None):
     """Run every routed statement kind on model M whose partition key is `keys` = [(attribute, column
-    class)] in the order the table declares it, with key `values`, and judge each recorded statement."""
+    class)] in the order the table declares it, with key `values`, and judge each recorded statement.
+    `ref_values` (default: `values`) are the values as the column type holds them, for the reference
+    encoding, when a value is handed to cqlengine in another accepted python form (1 / True / 1.0 for an
+    int column, a str for a uuid column ...)."""
     from vt.spec import minicql
     s = world()['session']
     names = tuple(n for _, n in keys)
     cql_types = [TYPE_BY_NAME[n][0] for n in names]
-    expected = minicql.routing_key(cql_types, values) if compute else None
+    expected = minicql.routing_key(cql_types, values if ref_values is None else ref_values) if compute else None
     keykw = dict((a, v) for (a, _), v in zip(keys, values))
     k0 = keys[0][0]
     ckval = 'c1' if names[0] != 'Text' else 7
@@ -179,7 +208,7 @@ def exercise(part, M, keys, values, case, compute=True, fp=direct_fp, mark=None)
                     part.violation(fp(why, label, composite),
                                    '%s %r: routing_key %r, Cassandra partition key bytes %r, key %r types %r values %r%s' % (
                                        label, call.query[:120], got, expected, [a for a, _ in keys], names, values,
-                                       ' (%s)' % case['family']['where'] if 'family' in case else ''),
+                                       where_of(case)),
                                    dict(case, label=label))
                 else:
                     part.mark_nontrivial('%s|%s' % (mark, label))
@@ -206,8 +235,7 @@ def exercise(part, M, keys, values, case, compute=True, fp=direct_fp, mark=None)
             part.outcome((label, 'raised', type(e).__name__))
             part.violation(fp('raises', label, composite, type(e).__name__),
                            '%s raised %r for key %r types %r values %r%s' % (
-                               label, e, [a for a, _ in keys], names, values,
-                               ' (%s)' % case['family']['where'] if 'family' in case else ''), dict(case, label=label))
+                               label, e, [a for a, _ in keys], names, values, where_of(case)), dict(case, label=label))
             return False
         check(label, want_present)
         return True
@@ -226,7 +254,7 @@ def exercise(part, M, keys, values, case, compute=True, fp=direct_fp, mark=None)
             inst.save()
         step('inst-save', present, do_save)
         step('inst-delete', present, lambda: inst.delete())
-    elif 'family' not in case:
+    elif 'family' not in case and 'history' not in case:
         return
     orders = [list(keykw.items())]
     if composite:
@@ -460,11 +488,169 @@ def run_family(part, fam):
         exercise(part, cls, keys, values, case, True, fp, mark='f%d#%d' % (fam['serial'], idx))
 
 
+# ------------------------------------------------------------------------------------------------
+# Value histories: statements executed one after the other on ONE model (nothing is reset between
+# them) with different key values.  What matters for anything the model / statement machinery keeps
+# between two statements is how the two key values relate:
+#   python-equal, other bytes  : == and hash-equal in python but another partition for Cassandra
+#                                (decimal 1.0 / 1.00 / 1 / 1E+1 vs 10: the scale is part of the encoding;
+#                                float/double 0.0 / -0.0: the sign bit)
+#   python-differs, same bytes : different python objects naming the same partition (1 / True / 1.0 in an int
+#                                column, a uuid and its text form, naive / aware datetime of one instant,
+#                                date / cassandra.util.Date, '::1' / '0:0:0:0:0:0:0:1', 0.1 / float32(0.1) in a float column)
+#   python-equal, same bytes   : the value used again
+#   distinct                   : unrelated values
+# table: column class -> [(value handed to cqlengine, value as the column type holds it = input of the
+# reference encoding)]; the second member is written by hand, never computed by driver code.
+_hist = {}
+
+
+def hist_values(name):
+    if not _hist:
+        world()
+        from cassandra import util
+        D = decimal.Decimal
+        dt, d, t = datetime.datetime, datetime.date, datetime.time
+        utc = datetime.timezone.utc
+        plus2 = datetime.timezone(datetime.timedelta(hours=2))
+        same = lambda vals: [(v, v) for v in vals]
+        ints = [(0, 0), (False, 0), (1, 1), (True, 1), (1.0, 1), (-1, -1)]
+        flo = [(0.0, 0.0), (-0.0, -0.0), (1.0, 1.0), (1, 1.0), (True, 1.0), (0.1, 0.1), (0.10000000149011612, 0.10000000149011612)]
+        nanos = ((1 * 60 + 2) * 60 + 3) * 1000000000 + 4000
+        day = (d(2024, 2, 29) - d(1970, 1, 1)).days
+        _hist.update({
+            'Integer': ints, 'TinyInt': ints, 'SmallInt': ints, 'BigInt': ints,
+            'VarInt': ints + [(128, 128), (1 << 70, 1 << 70)],
+            'Float': flo, 'Double': flo,
+            'Decimal': same([D('1.0'), D('1.00'), D('1')]) + [(1, D('1')), (1.0, D('1.0'))] +
+                       same([D('1E+1'), D('10'), D('0'), D('-0'), D('0.0'), D('-1.50'), D('-1.5')]),
+            'Text': same(['a', 'A', 'a ', 'é', '\xe9']),
+            'Ascii': same(['a', 'A', '']),
+            'Boolean': same([False, True]),
+            'Blob': [(b'a', b'a'), (bytearray(b'a'), b'a'), (b'', b''), (b'\x00', b'\x00'), (b'A', b'A')],
+            'UUID': [(U3, U3), (str(U3), U3), (str(U3).upper(), U3), (uuid.UUID(int=U3.int), U3), (U1, U1)],
+            'TimeUUID': [(T1, T1), (str(T1), T1), (T2, T2)],
+            'DateTime': same([dt(2024, 2, 29, 12, 0, 1), dt(2024, 2, 29, 12, 0, 1, tzinfo=utc), dt(2024, 2, 29, 14, 0, 1, tzinfo=plus2),
+                              dt(2024, 2, 29), d(2024, 2, 29), dt(1970, 1, 1)]),
+            'Date': [(d(2024, 2, 29), d(2024, 2, 29)), (util.Date(day), d(2024, 2, 29)), (dt(2024, 2, 29, 13, 0), d(2024, 2, 29)),
+                     (d(1970, 1, 1), d(1970, 1, 1)), (d(1969, 12, 31), d(1969, 12, 31))],
+            'Time': [(t(1, 2, 3, 4), nanos), (util.Time(nanos), nanos), (util.Time(nanos + 1), nanos + 1), (t(0, 0), 0), (util.Time(0), 0)],
+            'Inet': same(['::1', '0:0:0:0:0:0:0:1', '127.0.0.1', '2001:db8::ff00:42:8329', '2001:DB8::FF00:42:8329']),
+        })
+    return _hist[name]
+
+
+# partner columns of the composite shapes: (class, two rows of its table)
+PARTNER_P = ('Integer', (2, 5))
+PARTNER_Q = ('Text', (0, 1))
+RELATIONS = ('py-equal-other-bytes', 'py-differs-same-bytes', 'py-equal-same-bytes', 'distinct')
+
+
+def py_equal(a, b):
+    """== and (where hashable) hash-equal, component by component and as tuples."""
+    try:
+        if not (a == b):
+            return False
+    except Exception:
+        return False
+    try:
+        return hash(a) == hash(b)
+    except TypeError:
+        return True
+
+
+def relation(raw, enc, earlier):
+    """How the key of a step relates to the keys of the earlier steps of its history (the strongest
+    relation to any of them, in the order of RELATIONS); 'first' without earlier steps."""
+    found = set()
+    for praw, penc in earlier:
+        eq = py_equal(praw, raw)
+        found.add({(True, False): RELATIONS[0], (False, True): RELATIONS[1], (True, True): RELATIONS[2],
+                   (False, False): RELATIONS[3]}[(eq, penc == enc)])
+    for r in RELATIONS:
+        if r in found:
+            return r
+    return 'first'
+
+
+def run_history(part, h):
+    """h = {'types': [column classes], 'steps': [[row of hist_values(class) per key column], ...], 'serial': int}:
+    one fresh model; for every step in turn all statement kinds with that step's key values."""
+    from vt.spec import minicql
+    names = tuple(h['types'])
+    M = make_model(names, 1000000 + h['serial'])
+    keys = [('k%d' % i, n) for i, n in enumerate(names)]
+    cql_types = [TYPE_BY_NAME[n][0] for n in names]
+    tabs = [hist_values(n) for n in names]
+    part.count('histories')
+    earlier = []
+    shape = 'single' if len(names) == 1 else 'composite'
+    for si, idx in enumerate(h['steps']):
+        raw = tuple(tabs[j][i][0] for j, i in enumerate(idx))
+        ref = tuple(tabs[j][i][1] for j, i in enumerate(idx))
+        enc = minicql.routing_key(cql_types, ref)
+        rel = relation(raw, enc, earlier)
+        earlier.append((raw, enc))
+        part.count('history_steps')
+        part.count('history_steps_' + rel)
+        where = 'step %d of the statement history on one model with key values %s; relation to the earlier keys: %s' % (
+            si, ' then '.join(repr(e[0]) for e in earlier), rel)
+        case = {'history': {'types': list(names), 'steps': [list(x) for x in h['steps']], 'step': si, 'relation': rel, 'where': where},
+                'types': list(names), 'values': [repr(v) for v in raw]}
+
+        def fp(why, label, composite, exc=None, rel=rel):
+            return 'C38/history/%s/%s/%s' % (rel, shape, why if exc is None else '%s-%s' % (why, exc))
+        exercise(part, M, keys, raw, case, True, fp, mark='h%d#%d' % (h['serial'], si), ref_values=ref)
+
+
+def histories(ctx):
+    """Single-key models: every ordered pair of rows of the class's table (a row with itself included), the
+    whole table forwards and backwards (thorough: also every ordered triple).  Composite models (class, Integer),
+    (Integer, class), (Integer, class, Text): every ordered pair of rows for the class's component with the partner
+    components unchanged, and every row twice with one partner component changed (thorough: every ordered pair with
+    each partner change as well)."""
+    out = []
+    for name, _, _ in KEY_TYPES:
+        n = len(hist_values(name))
+        R = range(n)
+        for a in R:
+            for b in R:
+                out.append({'types': [name], 'steps': [[a], [b]]})
+        out.append({'types': [name], 'steps': [[i] for i in R]})
+        out.append({'types': [name], 'steps': [[i] for i in reversed(R)]})
+        if not ctx.quick:
+            for a in R:
+                for b in R:
+                    for c in R:
+                        out.append({'types': [name], 'steps': [[a], [b], [c]]})
+        partner = {'P': PARTNER_P, 'Q': PARTNER_Q}
+        for slots in ('XP', 'PX', 'PXQ'):
+            types = [name if c == 'X' else partner[c][0] for c in slots]
+            others = [c for c in slots if c != 'X']
+
+            def row(x, alt=None, slots=slots, others=others):
+                return [x if c == 'X' else partner[c][1][1 if alt is not None and others[alt] == c else 0] for c in slots]
+            for a in R:
+                for b in R:
+                    out.append({'types': types, 'steps': [row(a), row(b)]})
+                    if not ctx.quick:
+                        for alt in range(len(others)):
+                            out.append({'types': types, 'steps': [row(a), row(b, alt)]})
+                if ctx.quick:
+                    for alt in range(len(others)):
+                        out.append({'types': types, 'steps': [row(a), row(a, alt)]})
+    for i, h in enumerate(out):
+        h['serial'] = i
+    return out
+
+
 def run_chunk(args):
     part = Part()
     for item in args:
         if item[0] == 'family':
             run_family(part, item[1])
+        elif item[0] == 'history':
+            run_history(part, item[1])
         else:
             serial, names, values, db_field, compute = item
             run_case(part, names, values, serial, db_field, compute)
@@ -536,6 +722,8 @@ def run(ctx):
     items = [(i, n, v, d, c) for i, (n, v, d, c) in enumerate(cs)]
     fams = families(ctx)
     items += [('family', f) for f in fams]
+    hists = histories(ctx)
+    items += [('history', h) for h in hists]
     items = ctx.rotate(items)
     nchunks = ctx.nproc * 4
     chunks = [items[i::nchunks] for i in range(nchunks)]
@@ -543,6 +731,7 @@ def run(ctx):
         ctx.merge(part)
     ctx.count('models', len(cs))
     ctx.count('model_shapes', len(SHAPE_IDS))
+    ctx.count('history_table_rows', sum(len(hist_values(n)) for n, _, _ in KEY_TYPES))
     ctx.cov['rule'] = ('%d generated (model, key values) cases: every single key class x every boundary value; every ordered pair of the '
                        '18 classes (%s value tuples: cyclic = i-th boundary value of each class for every i, cyclic3 = the first three of those); triples over %s; plus db_field-renamed first key and __compute_routing_key__=False '
                        'per class; each case runs 4 instance statements, 4-8 query-set statements with a full key and the partial / IN / range '
@@ -550,15 +739,28 @@ def run(ctx):
                        'was present and equal to the reference.  Families: %d definition histories over %d model shapes %r (groups %s) under %d '
                        'type assignment(s) of the slots %s: every ordered pair of shapes, and the whole shape list in %s rotation of its order '
                        'forwards and backwards; every concrete model of a history (counter family_models) runs the same statements after the '
-                       'last class of the history has been defined; non-trivial there = (history, model, statement kind)' % (
+                       'last class of the history has been defined; non-trivial there = (history, model, statement kind).  Value histories: '
+                       '%d statement histories (counter histories; history_steps = steps, each running all statement kinds on the one model of its '
+                       'history) over per-class value tables of %s rows: single-key models: every ordered pair of rows%s, the whole table forwards and '
+                       'backwards; composite models (X,Integer), (Integer,X), (Integer,X,Text): every ordered pair of rows of X %s; counters '
+                       'history_steps_<relation> = steps whose key is py-equal-other-bytes / py-differs-same-bytes / py-equal-same-bytes / distinct '
+                       'with respect to an earlier key of the same history (strongest relation in that order; == and hash-equal on the python values '
+                       'handed to cqlengine, bytes = reference encoding); non-trivial there = (history, step, statement kind)' % (
                            len(cs), 'cyclic3' if ctx.quick else 'all',
                            'the reduced list %r' % REDUCED if ctx.quick else 'all 18 classes',
                            len(fams), len(SHAPE_IDS), SHAPE_IDS, sorted(set(g for g, _, _ in SHAPES.values())),
-                           len(assignments(ctx)), SLOTS, 'every 8th' if ctx.quick else 'every'))
+                           len(assignments(ctx)), SLOTS, 'every 8th' if ctx.quick else 'every',
+                           len(hists), dict((n, len(hist_values(n))) for n, _, _ in KEY_TYPES), '' if ctx.quick else ' and every ordered triple',
+                           'with the partner components unchanged, and every row twice with one partner component changed' if ctx.quick
+                           else 'with the partner components unchanged and with each single partner component changed'))
     ctx.cov['exhaustive'] = True
     ctx.assume('Cassandra hashes: single-component key = the value bytes; composite = per component 2-byte big-endian length, bytes, 0x00')
     ctx.assume('DateTime key values are whole seconds (the millisecond conversion of DateTime.to_database is C36\'s subject)')
     ctx.assume('a statement that restricts a key component with IN or a range does not "fix" the partition key: no routing key is required or allowed')
+    ctx.assume('value histories: a python value of another type is used for a key column only where the column class converts it itself '
+               '(int() for the integer classes, float() for float/double, Decimal() for decimal, UUID(text), date/datetime/util.Date for date, '
+               'time/util.Time for time, bytes/bytearray for blob); Boolean gets only False / True (the query-set path binds other values unconverted); '
+               'NaN and non-whole-second datetimes are not in the tables')
     ctx.assume('BatchQuery sends a plain string without routing key; batches are outside C38')
     ctx.assume('frozen collection / tuple / UDT partition keys are not generated')
     ctx.assume('the table of an inheriting model has the partition key cqlengine documents: inherited columns in base order, then own columns; '
@@ -569,7 +771,10 @@ def run(ctx):
 
 def replay(ctx, data):
     part = Part()
-    if 'family' in data:
+    if 'history' in data:
+        h = data['history']
+        run_history(part, {'types': list(h['types']), 'steps': [list(x) for x in h['steps']], 'serial': 0})
+    elif 'family' in data:
         f = data['family']
         run_family(part, {'assign': tuple(f['assign']), 'history': list(f['history']), 'vi': f['vi'], 'serial': 0})
     else:
